@@ -436,6 +436,11 @@ func (d *driver) submitOpt(li *logInst, e *ctlog.PendingLogEntry, low bool, doSy
 	d.subMu.Lock() // two submitters may finish at the same time (scenario sharedissuer)
 	defer d.subMu.Unlock()
 	w.mu.Lock()
+	// RunSequencer had returned by the time this submission came out of addLeafToPool (it may have begun before the stop,
+	// e.g. inside an issuer upload): "after a stop all pending and future submissions fail"
+	if li.log != nil && !li.running && !li.in.dead {
+		stopped = true
+	}
 	sc.cancel = nil
 	if sctx.Err() != nil {
 		d.stats["submit-context-cancelled"]++
